@@ -21,6 +21,15 @@ class C29(Monitor):
         if s.ok:
             if s.op in ('open_outbound_streams', 'open_inbound_streams'):
                 self.gc_after[s.ep] = trk.close_counter
+            a = s.args or {}
+            sid = a.get('sid')
+            if (s.op == 'acknowledge_received_data' and isinstance(sid, int) and 0 < sid <= MAXID and not s.snap['closed']
+                    and s.pre.get(sid) is None and isinstance(a.get('n'), int) and a['n'] >= 0):
+                hi = s.snap['hi_mine'] if trk.is_mine(sid) else s.snap['hi_peer']
+                if sid > hi:
+                    # only closed-and-forgotten streams are ignored; an id that was never used is not one of them
+                    self.probe('never_used_id')
+                    self.fail('never-used-stream', 'acknowledge_received_data on a never-used id returned normally', s)
             return
         self.probe('raising_call')
         self.nontrivial = True
